@@ -338,6 +338,11 @@ package client
 //@ func mapKnownError
 //@   partial
 //@   ensures[C18] err != nil ==> result != nil
+// C17 / C05 / C18: a failed condition reported by the core - as the typed error or as a generic error with that code -
+// reaches the SDK v2 caller as the typed ConditionalCheckFailedException, a missing table as ResourceNotFoundException
+//@   ensures[C17,C05] typeis(err, "*mtypes.ConditionalCheckFailedException") ==> typeis(result, "*ddb2types.ConditionalCheckFailedException")
+//@   ensures[C17,C05] typeis(err, "*mtypes.baseError") && err.(*mtypes.baseError).code == "ConditionalCheckFailedException" ==> typeis(result, "*ddb2types.ConditionalCheckFailedException")
+//@   ensures[C17,C18] typeis(err, "*mtypes.baseError") && err.(*mtypes.baseError).code == "ResourceNotFoundException" ==> typeis(result, "*ddb2types.ResourceNotFoundException")
 
 // ---- C01 / C05 / C08 / C13 at the client: single-item operations reach the core unchanged ---------------------
 // Each data method resolves its table by the request's name and hands the core operation a request whose item / key
